@@ -479,6 +479,9 @@ pub fn record_walk(opts: &Opts) -> i32 {
     let shard = opts.num("shard", 0);
     let probe_every = opts.num("probe-every", 25);
     let illegal_pct = opts.num("illegal-pct", 10);
+    // probability (percent) of undoing one's own previous move: positions then recur by different
+    // paths (transpositions), which is what the hash property quantifies over
+    let undo_pct = opts.num("undo-pct", 0);
     let tagsel = opts.str("tags", "");
     let out_path = opts.str("out", "trace.ndjson");
     let mut out = std::io::BufWriter::new(std::fs::File::create(&out_path).expect("create trace"));
@@ -511,6 +514,7 @@ pub fn record_walk(opts: &Opts) -> i32 {
         let ev = json!({"ev": "reset", "root": ri + 1, "fen_in": fen, "obs": obs_json(&board, true)});
         writeln!(out, "{ev}").unwrap();
         events += 1;
+        let mut played: Vec<u32> = vec![];
         for ply in 0..plies {
             if !has_both_kings(&board) {
                 break;
@@ -520,9 +524,18 @@ pub fn record_walk(opts: &Opts) -> i32 {
             if legals.is_empty() {
                 break;
             }
+            let undo = if played.len() >= 2 && rng.gen_range(0..100) < undo_pct {
+                let p = decode(played[played.len() - 2]);
+                let inv = code(chess_movegen::ChessMove { source: p.dest, dest: p.source, piece: None });
+                if legals.contains(&inv) { Some(inv) } else { None }
+            } else {
+                None
+            };
             // choose: mostly a legal move (biased to captures, castling, promotions, pawn double
             // steps and en passant), sometimes an arbitrary triple to exercise refusal
-            let c = if rng.gen_range(0..100) < illegal_pct {
+            let c = if let Some(inv) = undo {
+                inv
+            } else if rng.gen_range(0..100) < illegal_pct {
                 if rng.gen_bool(0.5) {
                     rng.gen_range(0..20480u32)
                 } else {
@@ -547,6 +560,7 @@ pub fn record_walk(opts: &Opts) -> i32 {
             let untouched = same_board(&board, &before);
             if let Some(b) = res {
                 board = b;
+                played.push(c);
             }
             let opname = ["new", "mut", "into"][which as usize];
             let refused_generated: Vec<u32> = if has_both_kings(&board) {
